@@ -171,6 +171,9 @@ func (fr *Frame) execAppend(ins ssa.CallInstruction, cc *ssa.CallCommon) Term {
 	c.assumeDef(eq(newLen, app(SInt, "+", oldLen, n)))
 	inplace := c.fresh("inplace", SBool)
 	c.assumeDef(eq(inplace, app(SBool, "<=", newLen, sliceCap(s))))
+	if fr.inLocalOnly() {
+		fr.oblige("loop.local", "", implies(inplace, Term{fmt.Sprintf("(>= (rootid (sbase %s)) alloc@0)", s.S), SBool}), ins.Pos(), "in-place append inside a `modifies local` loop targets an array allocated by this function")
+	}
 	nb := c.allocObj(fr.st)
 	ncap := c.fresh("newcap", SInt)
 	c.assume(app(SBool, ">=", ncap, newLen))
@@ -232,6 +235,7 @@ func (fr *Frame) execCopy(ins ssa.CallInstruction, cc *ssa.CallCommon) Term {
 	}
 	n := c.fresh("copyn", SInt)
 	c.assumeDef(eq(n, ite(app(SBool, "<=", sliceLen(dst), sl), sliceLen(dst), sl)))
+	fr.localWriteCheck(sliceBase(dst), ins.Pos())
 	for _, lp := range c.leafPaths(dt.Elem()) {
 		srt := c.sortOf(lp.t)
 		h := c.heap(fr.st, srt)
